@@ -33,7 +33,7 @@ def sh(cmd, cwd=None, timeout=1200):
 
 def build(wt):
     rc, out, _ = sh("cmake -G Ninja -S . -B _b >/dev/null 2>&1 && cmake --build _b 2>&1 | tail -3", cwd=wt)
-    return rc == 0 and "FAILED" not in out and "error" not in out.lower(), out
+    return rc == 0 and "FAILED" not in out and "error:" not in out.lower(), out
 
 
 def demo_cmd(wt, sd, touched):
